@@ -170,9 +170,10 @@ def run(chk):
                           {"xs": xs, "m": m, "out": out})
 
     # ---- powerlaw_sample
+    # (alpha = 1.02: a tail so heavy that many draws exceed 2**63 - the documented result is still an integer-VALUED sample >= xmin)
     for size in (0, 1, 7, 1000):
         for xmin in (1, 2, 5, 37):
-            for alpha in (1.2, 2.0, 3.5):
+            for alpha in (1.02, 1.2, 2.0, 3.5):
                 np.random.seed((seed0 + k) % (2 ** 32))
                 k += 1
                 real = core.call_real(lambda: st.powerlaw_sample(size=size, xmin=xmin, alpha=alpha))
